@@ -31,11 +31,14 @@ INVARIANT NeverStuck
 INVARIANT Emit
 '''
 SEC = {1: 'section', 2: 'subsection', 3: 'subsubsection'}
+SECBOOK = {1: 'chapter', 2: 'section', 3: 'subsection'}
+DECLS = ['bfseries', 'itshape']
 CMDS = ['textbf', 'emph', 'footnote', 'mbox', 'verb', 'math']
 
 
 def concretise(stream, salt):
-    out = [r'\documentclass{article}\begin{document}']
+    book = salt % 2 == 1
+    out = [r'\documentclass{%s}\begin{document}' % ('book' if book else 'article')]
     for i, it in enumerate(stream):
         n = i + 1
         k = it['k']
@@ -52,7 +55,9 @@ def concretise(stream, salt):
         elif k == 'par':
             out.append('\n\n' if (n + salt) % 2 else r'\par ')
         elif k == 'sec':
-            out.append('\\%s%s{T w%dt}' % (SEC[it['lvl']], '*' if (n + salt) % 4 == 0 else '', n))
+            out.append('\\%s%s{T w%dt}' % ((SECBOOK if book else SEC)[it['lvl']], '*' if (n + salt) % 4 == 0 else '', n))
+        elif k == 'decl':
+            out.append('\\%s ' % DECLS[(n + salt) % len(DECLS)])
         elif k == 'envb':
             out.append(r'\begin{%s}' % it['ty'])
         elif k == 'enve':
@@ -78,8 +83,10 @@ def concretise(stream, salt):
 
 def kind_of(node):
     name = getattr(node, 'nodeName', None)
-    if name in ('section', 'subsection', 'subsubsection'):
+    if name in ('chapter', 'section', 'subsection', 'subsubsection'):
         return 'sec'
+    if name in DECLS:
+        return 'decl'
     if name in ('quote', 'itemize'):
         return 'envb'
     if name == 'item':
@@ -153,7 +160,7 @@ def spec_chains(stream, parent):
     counts = {}
     for i, it in enumerate(stream):
         k = it['k']
-        if k in ('sec', 'envb', 'item', 'grpb', 'cmd'):
+        if k in ('sec', 'envb', 'item', 'grpb', 'cmd', 'decl'):
             counts[k] = counts.get(k, 0) + 1
             ordinal[i + 1] = (k, counts[k])
 
@@ -273,7 +280,7 @@ def run(chk):
     for (beh, salt), (kind, msg) in zip(jobs, results):
         ks = [it['k'] for it in beh['stream']]
         nt = any(k in ('sec', 'envb', 'item', 'grpb') for k in ks) and sum(1 for k in ks if k in ('word', 'cmd')) >= 2
-        chk.case(beh['stream'], nt, {'document': concretise(beh['stream'], salt)[36:330]} if nt and len(ks) >= maxitems and len(chk.samples) < 5 else None)
+        chk.case(beh['stream'], nt, {'document': concretise(beh['stream'], salt)[33:330]} if nt and len(ks) >= maxitems and len(chk.samples) < 5 else None)
         chk.traces += 1
         if kind != 'ok':
             chk.violation('replay:' + kind, msg, {'stream': beh['stream']})
